@@ -89,3 +89,63 @@ def describe(case: SVCase) -> Dict[str, Any]:
         "random_values": {msgs[i].name: vs for i, vs in case.rand.items()},
         "config": case.config,
     }
+
+
+@st.composite
+def stride_cases(draw: Any, config: Optional[st.SearchStrategy] = None) -> SVCase:
+    """In-memory sizes at the 64 KiB line.  The wire limits (65535 bits per message, capacity 65535) keep
+    ordinary C structs below 65536 bytes, but the documented `c.struct_packing_alignment` option pads every
+    struct to 4 or 8 bytes, so an array of tiny messages can occupy >= 65536 bytes while staying small on the
+    wire; that struct is then used as a plain field, as an array element (directly or through an alias), and
+    is followed by a tail field whose position depends on every stride before it."""
+    from .model import Alias, Field, File, Message, TArray, TBase, TRef, Unit, set_parents
+
+    align = draw(st.sampled_from([8, 8, 8, 4, 4, 4, 4, 0]))
+    outer = draw(st.integers(2, 3))
+    px = Message("Pixel", False)
+    if align:
+        # the element count that reaches 64 KiB decides how many wire bits one element may have
+        want = 65536 // align + draw(st.sampled_from([0, 1, -1, 0, 37]))
+        maxbits = max(1, (65535 - 16 - 13 - 7) // outer // want)
+    else:
+        want = 0
+        maxbits = draw(st.integers(1, 6))
+    left = maxbits
+    for k in range(3):
+        if left <= 0 or (k > 0 and draw(st.booleans())):
+            break
+        bits = draw(st.integers(1, min(left, 3)))
+        kind = draw(st.sampled_from(["bool", "uint", "int"])) if bits == 1 else draw(st.sampled_from(["uint", "int"]))
+        px.items.append(Field(["on", "hue", "lum"][k], TBase("bool") if kind == "bool" else TBase(kind, bits), k + 1))
+        left -= bits
+    nf = len(px.fields())
+    px_bits = ref.nbits(px)
+    px_size = nf if not align else (nf + align - 1) // align * align
+    room = (65535 - 16 - 13 - 7) // outer // px_bits
+    n = max(2, min(want or room, room))
+    fr = Message("Frame", False)
+    if draw(st.booleans()):
+        fr.items.append(Field("seq", TBase("uint", draw(st.integers(1, 7))), 1))
+    fr.items.append(Field("px", TArray(TRef("Pixel", px), n), 2))
+    top = Message("Scene", False)
+    f = File("scene", "scene")
+    f.items += [px, fr]
+    via_alias = draw(st.booleans())
+    if via_alias:
+        al = Alias("Strip", TArray(TRef("Frame", fr), outer))
+        f.items.append(al)
+        top.items.append(Field("frames", TRef("Strip", al), 1))
+    else:
+        top.items.append(Field("frames", TArray(TRef("Frame", fr), outer), 1))
+    top.items.append(Field("tail", TBase("uint", draw(st.integers(1, 13))), 2))
+    f.items.append(top)
+    unit = Unit([f])
+    set_parents(unit)
+    cfg = draw(config) if config is not None else {}
+    stride = n * px_size + (1 if len(fr.fields()) > 1 else 0)
+    if align:
+        stride = (stride + align - 1) // align * align
+    cfg = dict(cfg, align=align, stride_bytes=stride)
+    msgs = unit_messages(unit)
+    rand = {i: [draw(S.values(m))] for i, m in enumerate(msgs)}
+    return SVCase(unit, rand, None, cfg)
